@@ -3792,6 +3792,7 @@ class DecVarSub(VarSub):
 
         self.rand_adapt[dec_indices_flat, rand_indices_flat] = 1
         self.dvars.rand_adapt = self.rand_adapt
+        self.dvars.fixed = False
 
     def __le__(self, other):
 
